@@ -394,6 +394,7 @@ class Ctx:
         'vidx': ('GenV', ['t_get_indices']),
         'vfit': ('GenV', ['t_weighted_optimize', 't_optimize']),
         'vaff': ('GenV', ['t_get_transformation']),
+        'fm': ('GenFM', ['t_loop']),
     }
 
     def check_generated(self, topics):
@@ -405,13 +406,14 @@ class Ctx:
         import translate_q
         import translate_k
         import translate_v
+        import translate_fm
         gendir = os.path.join(self.rundir, 'gen')
         os.makedirs(gendir, exist_ok=True)
         files = sorted(set(self.TOPICS[t][0] for t in topics))
         relevant = set(f for t in topics for f in self.TOPICS[t][1])
         problems = []
         for gf in files:
-            mod = {'Gen': translate, 'GenQ': translate_q, 'GenK': translate_k, 'GenV': translate_v}[gf]
+            mod = {'Gen': translate, 'GenQ': translate_q, 'GenK': translate_k, 'GenV': translate_v, 'GenFM': translate_fm}[gf]
             # only the functions the requested topics depend on are translated: nothing else can break this property's layer
             txt, probs = mod.translate(REPO, only=relevant)
             problems += probs
